@@ -5,28 +5,28 @@ D = os.path.join(os.path.dirname(os.path.abspath(__file__)), "..", "..", "..", "
 INV = "TypeOK NoErr RecordsInRange DepthOne SizeIsLength OpLaw Tiling Ledger Destructors NoUseAfterDestructor AllGone ReleaseTail"
 
 def cfg(name, lens, kinds, ops, depth, opset="AllOps", life=False, retains=0, connected=True, emptyop=False,
-        alphabet="{}", hist=True, emit=True, comment=""):
+        alphabet="{}", hist="codes", emit=True, sample=False, relafter=0, huge=False, comment=""):
     s = "\\* %s\nSPECIFICATION Spec\nCONSTANTS\n" % comment
     s += "  LeafLens <- %s\n  LeafKinds <- %s\n  Alphabet = %s\n  MaxOps = %d\n  MaxDepth = %d\n  OpSet <- %s\n" % (
         lens, kinds, alphabet, ops, depth, opset)
-    s += "  Lifetimes = %s\n  MaxRetains = %d\n  Connected = %s\n  EmptyOperand = %s\n  KeepHist = %s\n  Mut = \"none\"\n" % (
-        str(life).upper(), retains, str(connected).upper(), str(emptyop).upper(), str(hist).upper())
+    s += "  Lifetimes = %s\n  ReleaseAfter = %d\n  MaxRetains = %d\n  Connected = %s\n  EmptyOperand = %s\n  KeepHist = \"%s\"\n  Huge = %s\n  Sample = %s\n  Mut = \"none\"\n" % (
+        str(life).upper(), relafter, retains, str(connected).upper(), str(emptyop).upper(), hist, "{99999}" if huge else "{}", str(sample).upper())
     s += "INVARIANTS %s%s\nCHECK_DEADLOCK FALSE\n" % (INV, " EmitTerminal" if emit else "")
     open(os.path.join(D, "Data_%s.cfg" % name), "w").write(s)
 
 # quick
-cfg("gen_q", "Lens_ab", "Kinds_c2", 3, 3, comment="quick: every operation tree of <=3 operations (depth <=3) over leaves of length 2 and {1,2}, all offsets/lengths 0..size+1, release tail; emitted for replay")
-cfg("life_q", "Lens_f22", "Kinds_c2", 2, 2, life=True, retains=0, connected=False, comment="quick: all interleavings of release with <=2 operations over 2 leaves of length 2 (all release orders); emitted")
+cfg("gen_q", "Lens_f22", "Kinds_c2", 3, 3, comment="quick: every operation tree of <=3 operations (depth <=3) over 2 leaves of length 2, all offsets/lengths 0..size+1, release tail; emitted for replay")
+cfg("life_q", "Lens_f21", "Kinds_c2", 2, 2, life=True, retains=0, connected=False, comment="quick: all interleavings of release with <=2 operations over 2 leaves of length 2 (all release orders); emitted")
 cfg("lifer_q", "Lens_f22", "Kinds_c2", 1, 1, life=True, retains=1, connected=False, comment="quick: all interleavings of retain/release with <=1 operation over 2 leaves of length 2; emitted")
-cfg("ab_q", "Lens_ab", "Kinds_c2", 2, 2, alphabet="{0, 1}", connected=True, emptyop=False, comment="quick: 2-symbol alphabet, every leaf content, <=2 operations; emitted")
-cfg("kinds_q", "Lens_k", "Kinds_all2", 1, 1, life=True, retains=0, connected=False, emptyop=True, comment="quick: every destructor kind (DEFAULT copy / custom block on a serial queue / FREE / custom block on the default queue), empty leaves and the empty operand included; emitted")
-cfg("mut_q", "Lens_f22", "Kinds_c2", 3, 3, emit=False, hist=False, comment="quick: base of the spec-mutant runs (Mut is substituted)")
-cfg("mutlife_q", "Lens_f22", "Kinds_c2", 1, 1, life=True, connected=False, emit=False, hist=False, comment="quick: base of the lifetime spec-mutant runs")
-cfg("sim", "Lens_sim", "Kinds_sim", 8, 8, opset="FlatOps", life=True, retains=3, connected=False, emptyop=True, comment="-simulate: deep trees (<=8 operations over <=4 leaves of length <=5, every kind, flatten SPI), retain/release interleaved; emitted")
+cfg("ab_q", "Lens_f21", "Kinds_c2", 2, 2, alphabet="{0, 1}", huge=True, connected=True, emptyop=False, comment="quick: 2-symbol alphabet, every leaf content, <=2 operations; emitted")
+cfg("kinds_q", "Lens_k", "Kinds_all2", 1, 1, huge=True, life=True, retains=0, connected=False, emptyop=True, comment="quick: every destructor kind (DEFAULT copy / custom block on a serial queue / FREE / custom block on the default queue), empty leaves and the empty operand included; emitted")
+cfg("mut_q", "Lens_f22", "Kinds_c2", 3, 3, emit=False, hist="none", comment="quick: base of the spec-mutant runs (Mut is substituted)")
+cfg("mutlife_q", "Lens_f22", "Kinds_c2", 1, 1, life=True, connected=False, emit=False, hist="none", comment="quick: base of the lifetime spec-mutant runs")
+cfg("sim", "Lens_sim", "Kinds_sim", 8, 8, opset="FlatOps", life=True, retains=3, connected=False, emptyop=True, hist="ops", sample=True, relafter=3, huge=True, comment="-simulate: deep trees (<=8 operations over <=4 leaves of length <=5, every kind, flatten SPI), retain/release interleaved; emitted")
 # thorough
 cfg("gen_t23", "Lens_2x3", "Kinds_c2", 3, 3, comment="thorough: <=3 operations over <=2 leaves of length <=3 (second may be empty); emitted")
-cfg("gen_t3", "Lens_f212", "Kinds_cdf3", 3, 3, comment="thorough: <=3 operations over 3 leaves (lengths 2,1,2; custom/DEFAULT/FREE); emitted")
+cfg("gen_t3", "Lens_f212", "Kinds_cdf3", 3, 3, huge=True, comment="thorough: <=3 operations over 3 leaves (lengths 2,1,2; custom/DEFAULT/FREE); emitted")
 cfg("gen_t4", "Lens_f21", "Kinds_c2", 4, 4, comment="thorough: <=4 operations (4-record composites, depth 4) over leaves of length 2 and 1; emitted")
 cfg("life_t", "Lens_f22", "Kinds_c2", 2, 2, life=True, retains=1, connected=False, comment="thorough: all interleavings of retain/release with <=2 operations over 2 leaves; emitted")
 cfg("flat_t", "Lens_f21", "Kinds_c2", 3, 3, opset="FlatOps", connected=False, comment="thorough: dispatch_data_get_flattened_bytes_4libxpc interleaved with <=3 operations; emitted")
-cfg("alg_t", "Lens_3x3", "Kinds_c3", 3, 3, hist=False, emit=False, comment="thorough: model checking only, <=3 operations, depth <=3, <=3 leaves of length <=3 (third may be empty)")
+cfg("alg_t", "Lens_3x3", "Kinds_c3", 3, 3, hist="none", emit=False, comment="thorough: model checking only, <=3 operations, depth <=3, <=3 leaves of length <=3 (third may be empty)")
